@@ -41,34 +41,39 @@ pub fn plan(id: usize) -> Option<Plan> {
         level,
     };
     Some(match id {
-        1 => p(&[1], &[Conn, Sweep, Conn, Sweep, Adversarial, Reuse], GenOpts { kinds: ALL, ..d }, 260_000, 12_000_000, "exploration"),
-        2 => p(&[2], &[Sweep, Sweep, Conn, Sweep, Conn], GenOpts { kinds: ALL, ..d }, 200_000, 10_000_000, "fault_enumeration"),
-        3 => p(&[3], &[Conn, Conn, Sweep], GenOpts { kinds: ALL, ..d }, 300_000, 12_000_000, "exploration"),
-        4 => p(&[4], &[Conn, Sweep, Reuse], GenOpts { kinds: MSG3, ..d }, 300_000, 12_000_000, "exploration"),
-        5 => p(&[5], &[Conn, Sweep, Conn], GenOpts { kinds: MSG3, ..d }, 300_000, 12_000_000, "exploration"),
-        6 => p(&[6], &[Conn, Sweep], GenOpts { kinds: REQ, ..d }, 300_000, 12_000_000, "exploration"),
-        7 => p(&[7], &[Conn, Sweep], GenOpts { kinds: RESP, ..d }, 300_000, 12_000_000, "exploration"),
-        8 => p(&[8], &[Conn, Sweep], GenOpts { kinds: MSG3, cfg_mask: 4 | 8, ..d }, 300_000, 12_000_000, "exploration"),
-        9 => p(&[9], &[Conn, Sweep, Sweep], GenOpts { kinds: CHUNKY, chunk_heavy: true, ..d }, 300_000, 12_000_000, "exploration"),
-        10 => p(&[10], &[Conn, Sweep], GenOpts { kinds: MSG3, ..d }, 300_000, 12_000_000, "exploration"),
-        11 => p(&[11], &[Sweep, Sweep, Conn], GenOpts { kinds: ALL, ..d }, 60_000, 3_000_000, "exploration"),
-        13 => p(&[13], &[Conn, Sweep, Adversarial], GenOpts { kinds: ALL, ..d }, 160_000, 8_000_000, "exploration"),
-        14 => p(&[14], &[Conn, Sweep], GenOpts { kinds: RR, ..d }, 300_000, 12_000_000, "exploration"),
-        15 => p(&[15], &[Conn, Sweep], GenOpts { kinds: RR, ..d }, 100_000, 5_000_000, "exploration"),
-        16 => p(&[16], &[Conn, Sweep], GenOpts { kinds: RR, ..d }, 150_000, 8_000_000, "exploration"),
-        17 => p(&[17], &[Conn, Sweep, Reuse, Sweep], GenOpts { kinds: MSG3, ..d }, 120_000, 6_000_000, "fault_enumeration"),
-        18 => p(&[18], &[Reuse, Reuse, Conn], GenOpts { kinds: RR, ..d }, 300_000, 12_000_000, "exploration"),
-        19 => p(&[19], &[Conn, Sweep, Adversarial, Reuse], GenOpts { kinds: ALL, ..d }, 260_000, 12_000_000, "exploration"),
-        20 => p(&[20], &[Adversarial, Conn, Adversarial, Sweep], GenOpts { kinds: ALL, ..d }, 60_000, 1_500_000, "exploration"),
+        1 => p(&[1], &[Conn, Sweep, Conn, Sweep, Adversarial, Reuse], GenOpts { kinds: ALL, ..d }, 650_000, 12_000_000, "exploration"),
+        2 => p(&[2], &[Sweep, Sweep, Conn, Sweep, Conn], GenOpts { kinds: ALL, ..d }, 500_000, 10_000_000, "fault_enumeration"),
+        3 => p(&[3], &[Conn, Conn, Sweep], GenOpts { kinds: ALL, ..d }, 750_000, 12_000_000, "exploration"),
+        4 => p(&[4], &[Conn, Sweep, Reuse], GenOpts { kinds: MSG3, ..d }, 750_000, 12_000_000, "exploration"),
+        5 => p(&[5], &[Conn, Sweep, Conn], GenOpts { kinds: MSG3, ..d }, 750_000, 12_000_000, "exploration"),
+        6 => p(&[6], &[Conn, Sweep], GenOpts { kinds: REQ, ..d }, 750_000, 12_000_000, "exploration"),
+        7 => p(&[7], &[Conn, Sweep], GenOpts { kinds: RESP, ..d }, 750_000, 12_000_000, "exploration"),
+        8 => p(&[8], &[Conn, Sweep], GenOpts { kinds: MSG3, cfg_mask: 4 | 8, ..d }, 750_000, 12_000_000, "exploration"),
+        9 => p(&[9], &[Conn, Sweep, Sweep], GenOpts { kinds: CHUNKY, chunk_heavy: true, ..d }, 750_000, 12_000_000, "exploration"),
+        10 => p(&[10], &[Conn, Sweep], GenOpts { kinds: MSG3, ..d }, 750_000, 12_000_000, "exploration"),
+        11 => p(&[11], &[Sweep, Sweep, Conn], GenOpts { kinds: ALL, ..d }, 150_000, 3_000_000, "exploration"),
+        13 => p(&[13], &[Conn, Sweep, Adversarial], GenOpts { kinds: ALL, ..d }, 400_000, 8_000_000, "exploration"),
+        14 => p(&[14], &[Conn, Sweep], GenOpts { kinds: RR, ..d }, 750_000, 12_000_000, "exploration"),
+        15 => p(&[15], &[Conn, Sweep], GenOpts { kinds: RR, ..d }, 250_000, 5_000_000, "exploration"),
+        16 => p(&[16], &[Conn, Sweep], GenOpts { kinds: RR, ..d }, 375_000, 8_000_000, "exploration"),
+        17 => p(&[17], &[Conn, Sweep, Reuse, Sweep], GenOpts { kinds: MSG3, ..d }, 300_000, 6_000_000, "fault_enumeration"),
+        18 => p(&[18], &[Reuse, Reuse, Conn], GenOpts { kinds: RR, ..d }, 750_000, 12_000_000, "exploration"),
+        19 => p(&[19], &[Conn, Sweep, Adversarial, Reuse], GenOpts { kinds: ALL, ..d }, 650_000, 12_000_000, "exploration"),
+        20 => p(&[20], &[Adversarial, Conn, Adversarial, Sweep], GenOpts { kinds: ALL, ..d }, 150_000, 1_500_000, "exploration"),
         // 0 = everything at once (self-tests, determinism, digests)
-        0 => p(&[1, 2, 3, 4, 5, 6, 7, 8, 9, 10, 11, 13, 14, 15, 16, 17, 18, 19, 20], &[Conn, Sweep, Reuse, Conn, Sweep, Adversarial], GenOpts { kinds: ALL, ..d }, 40_000, 400_000, "exploration"),
+        0 => p(&[1, 2, 3, 4, 5, 6, 7, 8, 9, 10, 11, 13, 14, 15, 16, 17, 18, 19, 20], &[Conn, Sweep, Reuse, Conn, Sweep, Adversarial], GenOpts { kinds: ALL, ..d }, 100_000, 400_000, "exploration"),
         _ => return None,
     })
 }
 
 impl Plan {
     pub fn generate(&self, run_seed: u64, index: u64, thorough: bool) -> Trace {
-        let scen = self.pattern[(index % self.pattern.len() as u64) as usize];
+        let mut scen = self.pattern[(index % self.pattern.len() as u64) as usize];
+        // thorough tier: every 1000th run of the grammar/hygiene checks is a byte-sweep (the
+        // corruption fault substitute(pos, byte) at every position x all 256 values)
+        if thorough && index % 1000 == 999 && matches!(self.id, 5 | 6 | 7 | 8 | 10 | 14 | 1 | 11) {
+            scen = ByteSweep;
+        }
         let mut t = match scen {
             Conn => gen::gen_conn(run_seed, &self.opts),
             Sweep => gen::gen_sweep(run_seed, &self.opts),
@@ -78,7 +83,14 @@ impl Plan {
                 let max = if index % 16 == 4 { if thorough { self.adv_len.1 } else { self.adv_len.0 } } else { 4096 };
                 gen::gen_adversarial(run_seed, max)
             }
-            ByteSweep => gen::gen_sweep(run_seed, &self.opts),
+            ByteSweep => {
+                let o = GenOpts { kinds: self.opts.kinds, force_cfg: self.opts.force_cfg, cfg_mask: self.opts.cfg_mask, faults: false, max_conns: 1, chunk_heavy: false };
+                let mut t = gen::gen_sweep(run_seed, &o);
+                t.scen = ByteSweep;
+                t.conns[0].wire.truncate(220);
+                t.conns[0].truth.clear();
+                t
+            }
         };
         if self.id == 19 {
             // a share of the runs inject allocation failure instead of counting
